@@ -75,11 +75,23 @@ def set_algo(simu, st):
                                              gamma=st["gamma"], alpha=st["alpha"])
 
 
-def apply_bc(simu, sc, scale):
+def stored_params(simu):
+    """what the scheme will use: the tuple behind __Solver_Get_{Hyperbolic,Parabolic}_Params"""
+    try:
+        if simu.algo == AlgoType.parabolic:
+            return [float(x) for x in simu._Simu__Solver_Get_Parabolic_Params()]
+        return [float(x) for x in simu._Simu__Solver_Get_Hyperbolic_Params()]
+    except Exception as ex:
+        return "unreadable: %s" % ex
+
+
+def apply_bc(simu, sc, scale, st=None):
+    """boundary conditions of a step: the step's own sets when it has some (they may change between steps)"""
+    st = st or {}
     simu.Bc_Init()
-    for d in sc["dirichlet"]:
+    for d in st.get("dirichlet", sc["dirichlet"]):
         simu.add_dirichlet(np.array(d["nodes"], dtype=int), list(d["values"]), list(d["dirs"]))
-    for d in sc["neumann"]:
+    for d in st.get("neumann", sc["neumann"]):
         simu.add_neumann(np.array(d["nodes"], dtype=int), [v * scale for v in d["values"]], list(d["dirs"]))
 
 
@@ -103,8 +115,11 @@ def run_scenario(sc):
     out = []
     for st in sc["steps"]:
         rec = {"algo": st["algo"]}
-        set_algo(simu, st)
-        apply_bc(simu, sc, st.get("neumann_scale", 1.0))
+        if not st.get("keep_scheme"):      # keep_scheme: same scheme and parameters as the previous step, setter not called again
+            set_algo(simu, st)
+        rec["algo_now"] = str(simu.algo)
+        rec["stored"] = stored_params(simu)
+        apply_bc(simu, sc, st.get("neumann_scale", 1.0), st)
         u_n, v_n, a_n = simu._Get_u_n(pt), simu._Get_v_n(pt), simu._Get_a_n(pt)
         rec["prev"] = {"u": fl(u_n), "v": fl(v_n), "a": fl(a_n)}
         ndof = u_n.size
@@ -162,7 +177,7 @@ def run_scenario(sc):
         simu.Set_Iter(k)
         back = {"u": fl(simu._Get_u_n(pt)), "v": fl(simu._Get_v_n(pt)), "a": fl(simu._Get_a_n(pt))}
         set_algo(simu, st)
-        apply_bc(simu, sc, st.get("neumann_scale", 1.0))
+        apply_bc(simu, sc, st.get("neumann_scale", 1.0), st)
         simu.Solve()
         cont = {"u": fl(simu._Get_u_n(pt)), "v": fl(simu._Get_v_n(pt)), "a": fl(simu._Get_a_n(pt))}
         out[k + 1]["restart"] = {"k": k, "restored": back, "cont": cont}
